@@ -122,6 +122,17 @@ class Harness:
             out = []
             for i, x in enumerate(v):
                 if self._p('item', label, i) < 0.6:
+                    if self._p('settled', label, i) < 0.2 and getattr(self.sched, 'loop', None) is not None:
+                        # an awaitable that has already settled when it is handed over (a data loader's cache hit), with a
+                        # result or with a failure: it must be treated like any other awaitable item
+                        fut = self.sched.loop.create_future()
+                        if isinstance(x, Exception):
+                            fut.set_exception(x)
+                        else:
+                            fut.set_result(x)
+                        self.mode[f'{label}#{i}'] = 'settled'
+                        out.append(fut)
+                        continue
                     self.mode[f'{label}#{i}'] = 'async'
                     if self.p_task and self._p('task', label, i) < self.p_task:
                         import asyncio
